@@ -1,2 +1,36 @@
-(* Props/C12.v *)
-From BC Require Import Store.Engine.
+(* Props/C12.v — C12: hint files are only an accelerator: recovery with or without them agrees. *)
+From BC Require Import Store.Engine Store.Log Store.Cons Store.Inv Store.Refine Store.Merge Store.Theorems.
+Open Scope N_scope.
+
+(* 1. From the directory of any reachable state (any history with merges, also merges that roll over
+      into several outputs, any thresholds), opening with every hint file deleted succeeds and
+      recovers the same index entry (file, offset, length, timestamp) for every key, hence the same
+      value for every key, as opening with the hint files. *)
+Theorem C12_hints_optional : forall s clk, Inv s ->
+  exists s1 t1 s2 t2, open (s_dir s) clk = ROk (s1, tt, t1) /\ open (drop_hints (s_dir s)) clk = ROk (s2, tt, t2) /\
+    Inv s1 /\ Inv s2 /\ (forall k, abs s1 k = abs s k) /\ (forall k, abs s2 k = abs s k) /\
+    (forall k, iget (s_idx s2) k = iget (s_idx s1) k).
+Proof. exact hints_optional. Qed.
+Print Assumptions C12_hints_optional.
+
+(* 2. The reason: every hint file lists exactly the records of its data file (timestamp, length,
+      offset before the increment, key), and that data file holds only values; this is part of the
+      invariant every operation preserves. *)
+Theorem C12_hints_list_data : forall s id f, Inv s -> In (id, f) (s_dir s) ->
+  match d_hint f with Some hs => hs = hints_of (d_data f) 0 /\ all_values (d_data f) | None => True end.
+Proof. intros s id f (_ & _ & Hh & _) Hin. exact (Hh id f Hin). Qed.
+Print Assumptions C12_hints_list_data.
+
+Theorem C12_scan_equals_hints : forall fid es pos datalen ix,
+  all_values es -> pos + data_size es <= datalen ->
+  load_hints fid datalen (hints_of es pos) ix = load_data fid es pos ix.
+Proof. exact load_hints_is_load_data. Qed.
+Print Assumptions C12_scan_equals_hints.
+
+(* Non-vacuity: a history whose merge rolls over into two outputs. *)
+Example C12_example :
+  let c := mkCfg 60 false 0 1 0 1000000000 in
+  let s := fst (fst (run c init [OSet [65] [1; 1; 1; 1; 1; 1; 1; 1; 1; 1]; OSet [66] [2; 2; 2; 2; 2; 2; 2; 2; 2; 2]; OSet [67] [3]; OSet [68] [4; 4; 4; 4; 4; 4; 4; 4; 4; 4]; ODel [66]; OMerge [[65]; [68]; [67]]])) in
+  length (filter (fun '(_, f) => match d_hint f with Some (_ :: _) => true | _ => false end) (s_dir s)) = 2%nat /\
+  match open (drop_hints (s_dir s)) 1%Z with ROk (s2, _, _) => abs s2 [65] = abs s [65] /\ abs s2 [66] = None | _ => False end.
+Proof. vm_compute. repeat split. Qed.
